@@ -1,5 +1,5 @@
 """C10 — Topology operations conserve the domain (DESIGN.md §4 C10)."""
-import numpy, warnings
+import os, numpy, warnings
 from hypothesis import strategies as st
 from vlib.core import Sub, Violation, Discard
 from vlib import gentopo
@@ -23,7 +23,10 @@ DEG = [8]
 
 @st.composite
 def cases(draw, tier):
-    r = draw(gentopo.recipes(minops=1, kinds=['line', 'rect', 'rect', 'tri', 'tri', 'mixed', 'multipatch', 'periodic', 'rect3', 'simplex3', 'rect', 'tri'], maxops=3 if tier == 'quick' else 5, ops=('refine', 'refined_by', 'refined_by', 'take', 'trim', 'trim', 'boundary', 'interfaces', 'boundary-group'), maxn=2))
+    r = draw(gentopo.recipes(minops=1, kinds=['line', 'rect', 'rect', 'tri', 'tri', 'mixed', 'multipatch', 'periodic', 'rect3', 'simplex3', 'rect', 'tri'], maxops=3 if tier == 'quick' else 5, ops=('refine', 'refined_by', 'refined_by', 'take', 'trim', 'trim', 'boundary', 'interfaces', 'boundary-group', 'slice'), maxn=2))
+    if r['kind'] in ('periodic', 'rect', 'rect3', 'line') and draw(st.integers(0, 2)) == 0:
+        # a window of a structured (in particular periodic) mesh first, then the drawn history: windows keep the index structure of the full axis
+        r['ops'] = [['slice', 0 if r['kind'] == 'periodic' else draw(st.integers(0, 2)), draw(st.integers(0, 5)), draw(st.integers(1, 3))]] + r['ops'][:(2 if tier == 'quick' else 4)]
     return dict(mesh=r, csalt=draw(st.integers(1, 50)))
 
 
@@ -142,6 +145,15 @@ def check(case, rec):
                             if abs(a1 + a2).max() > 1e-9 * (1 + abs(a1).max()):
                                 raise Violation('cut-orientation', f'{where}: trimmed boundaries of domain and complement give {a1.tolist()} and {a2.tolist()} (should cancel)', where='cut:' + where)
                             rec.label('cut-orientation-checked')
+                elif name == 'slice' and involume:
+                    _, sel, d = gentopo.slice_structured(prev, op)
+                    em = elem_measures(prev, geom)
+                    vol = measure(topo, geom)
+                    if abs(vol - em[sel].sum()) > TOL * (1 + abs(vol)):
+                        raise Violation('measure-changed', f'{where}: measure {vol} of the window, its elements sum to {em[sel].sum()}', where='measure:' + where)
+                    if periodic and d == 0:
+                        periodic = False      # a window of the periodic direction is an ordinary (closed) domain
+                        rec.label('window-of-periodic-direction')
                 elif name in ('boundary', 'boundary-group', 'interfaces'):
                     pass
                 # closedness and interfaces of the current volume topology
@@ -202,10 +214,106 @@ def _apply(topo, x, op, applied):
             return topo.boundary[op[1]], [op]
         except KeyError:
             return topo, []
+    if name == 'slice':
+        r = gentopo.slice_structured(topo, op)
+        return (r[0], [op]) if r is not None else (topo, [])
     return topo, []
 
 
-SUBS = [Sub('history', cases, check, {'quick': 150, 'thorough': 3000}, timeout=180)]
+# ---- windows of structured (periodic) meshes: slicing, refinement and boundary commute ------------------------------------
+
+@st.composite
+def window_cases(draw, tier):
+    nd = draw(st.sampled_from([1, 2, 2, 2, 3]))
+    shape = [draw(st.integers(1, 5 if nd < 3 else 3)) for _ in range(nd)]
+    periodic = [d for d in range(nd) if draw(st.integers(0, 2)) == 0 and shape[d] >= 1]
+    slices = []
+    for d in range(nd):
+        if draw(st.integers(0, 2)) or d in periodic:
+            a = draw(st.integers(0, shape[d] - 1)); b = draw(st.integers(a + 1, shape[d]))
+            slices.append([a, b])
+        else:
+            slices.append(None)
+    return dict(shape=shape, periodic=periodic, slices=slices, nref=draw(st.integers(1, 2)), sel=[draw(st.integers(0, 60)) for _ in range(draw(st.integers(1, 3)))],
+                sel2=[draw(st.integers(0, 60)) for _ in range(draw(st.integers(0, 3)))], geom=draw(st.sampled_from(['identity', 'affine'])))
+
+
+def check_window(case, rec):
+    try:
+        _check_window(case, rec)
+    except (Violation, Discard):
+        raise
+    except Exception as e:
+        # integrating or sampling a boundary of a window / refined window is always defined: an exception here is the library's
+        import traceback
+        tb = traceback.extract_tb(e.__traceback__)
+        inner = next((f'{os.path.basename(fr.filename)}:{fr.name}' for fr in reversed(tb) if '/nutils/' in fr.filename), 'harness')
+        if inner == 'harness':
+            raise
+        raise Violation('op-raised', f'window {case["slices"]} of rectilinear({case["shape"]}, periodic={case["periodic"]}): {type(e).__name__}: {str(e)[:200]} in {inner}', where=f'window:raised:{type(e).__name__}')
+
+
+def _check_window(case, rec):
+    from nutils import mesh, function
+    shape = case['shape']; nd = len(shape)
+    with warnings.catch_warnings():
+        warnings.simplefilter('ignore')
+        domain, x = mesh.rectilinear(shape, periodic=case['periodic'])
+        geom = x if case['geom'] == 'identity' else x @ (numpy.eye(nd) + .25 * numpy.triu(numpy.ones((nd, nd)), 1)) + .5
+        J = function.J(geom); n = function.normal(geom)
+        index = tuple(slice(None) if s is None else slice(*s) for s in case['slices'])
+        try:
+            window = domain[index]
+        except Exception as e:
+            raise Violation('op-raised', f'rectilinear({shape}, periodic={case["periodic"]})[{index}]: {type(e).__name__}: {str(e)[:200]}', where='window:slice:' + type(e).__name__)
+        # a direction that is still periodic in the window (not sliced) keeps the domain open in that direction: closedness needs all periodic directions sliced
+        still_periodic = [d for d in case['periodic'] if case['slices'][d] is None]
+        nelems = int(numpy.prod([shape[d] if s is None else s[1] - s[0] for d, s in enumerate(case['slices'])]))
+        if len(window) != nelems:
+            raise Violation('length', f'window {index} of {shape} has {len(window)} elements, expected {nelems}', where='window:length')
+        detM = 1. if case['geom'] == 'identity' else 1.
+        vol = float(window.integrate(J, degree=2))
+        if abs(vol - nelems * detM) > 1e-10 * (1 + vol):
+            raise Violation('measure-changed', f'window {index} of {shape}: measure {vol}, {nelems} unit elements', where='window:measure')
+        def closed(topo, label):
+            if still_periodic or nd < 1: return
+            bnd = topo.boundary
+            a, b = bnd.integrate([n * J, (geom * n).sum(-1) * J], degree=2)
+            v = float(topo.integrate(J, degree=2))
+            if abs(numpy.asarray(a)).max() > 1e-10 * (1 + v) or abs(float(b) - nd * v) > 1e-9 * (1 + v):
+                raise Violation('boundary-not-closed', f'{label} of rectilinear({shape}, periodic={case["periodic"]})[{index}]: boundary integral of n = {numpy.asarray(a).tolist()}, flux of x = {float(b)} vs dim*volume {nd * v}', where='window:closed:' + label.split('(')[0])
+            if abs(v - vol) > 1e-10 * (1 + vol):
+                raise Violation('measure-changed', f'{label}: measure {v}, window {vol}', where='window:measure:' + label.split('(')[0])
+        def centres(btopo):
+            X = numpy.asarray(btopo.sample('gauss', 1).eval(geom))
+            return sorted(map(tuple, numpy.round(X, 9).tolist()))
+        closed(window, 'window')
+        k = case['nref']
+        if nd >= 2 or not still_periodic:
+            try:
+                b1 = window.boundary.refine(k); b2 = window.refine(k).boundary
+            except Exception as e:
+                raise Violation('op-raised', f'boundary/refine({k}) of window {index} of {shape} periodic {case["periodic"]}: {type(e).__name__}: {str(e)[:200]}', where='window:refine:' + type(e).__name__)
+            if nd >= 2:
+                c1, c2 = centres(b1), centres(b2)
+                if c1 != c2:
+                    raise Violation('refine-boundary-commute', f'rectilinear({shape}, periodic={case["periodic"]})[{index}]: boundary.refine({k}) and refine({k}).boundary have different faces ({len(c1)} vs {len(c2)}; first difference {next((p, q) for p, q in zip(c1 + [None], c2 + [None]) if p != q)})', where='window:commute')
+                f1 = numpy.asarray(b1.integrate(n * J * (1 + geom[0]), degree=2)); f2 = numpy.asarray(b2.integrate(n * J * (1 + geom[0]), degree=2))
+                if abs(f1 - f2).max() > 1e-10 * (1 + abs(f2).max()):
+                    raise Violation('refine-boundary-commute', f'rectilinear({shape}, periodic={case["periodic"]})[{index}]: weighted normal integral over boundary.refine({k}) {f1.tolist()} vs refine({k}).boundary {f2.tolist()}', where='window:commute-flux')
+            closed(window.refine(k), f'refine({k})')
+        # hierarchical refinement of selected elements, twice
+        h1 = window.refined_by(sorted({i % len(window) for i in case['sel']} | {0, len(window) - 1}))
+        closed(h1, 'refined_by(ends)')
+        if case['sel2']:
+            h2 = h1.refined_by(sorted({i % len(h1) for i in case['sel2']} | {len(h1) - 1}))
+            closed(h2, 'refined_by(ends).refined_by')
+    rec.nontrivial = bool(case['periodic']) and any(case['slices'][d] is not None for d in case['periodic'])
+    rec.label('window-ndims=%d' % nd, *(['window-of-periodic-direction'] if rec.nontrivial else []), *(['still-periodic'] if still_periodic else []))
+
+
+SUBS = [Sub('history', cases, check, {'quick': 150, 'thorough': 3000}, weight=4, timeout=180),
+        Sub('windows', window_cases, check_window, {'quick': 150, 'thorough': 3000}, weight=1, timeout=120)]
 
 
 # ---- known findings ---------------------------------------------------------------------------------------
